@@ -779,6 +779,10 @@ impl<'a> UdpNhcRepr {
 
             // RFC 768: a computed checksum of zero is transmitted as all ones.
             packet.set_checksum(if chk_sum == 0 { 0xffff } else { chk_sum });
+        } else {
+            // The checksum is left to the device, but the header still announces an in-line
+            // checksum: do not leave the "checksum elided" bit as found in the buffer.
+            packet.set_checksum(0);
         }
     }
 }
